@@ -5,7 +5,7 @@ use serde_json::{json, Value};
 use std::collections::BTreeMap;
 
 fn arg_text(a: &str) -> String {
-    if a.starts_with("--") && a.chars().all(|c| c.is_ascii_alphanumeric() || c == '-') { a.to_string() } else { crate::c02::quote_arg(a) }
+    if a.starts_with("--") && a.chars().all(|c| c.is_ascii_alphanumeric() || c == '-') { a.to_string() } else { crate::c02::lit_arg(a) }
 }
 pub fn line_of(cmd: &str, args: &[String], tgt: &str) -> String {
     let mut s = String::new();
